@@ -165,9 +165,27 @@ def rule_grapheme_map(ctx):
         ctx.ok(site(fn, gc[0][0]), "extended grapheme clusters requested (graphemes(true))")
     else:
         ctx.violation(GRAPHEMES + "|extended|1", site(fn, gc[0][0]), "legacy (non-extended) grapheme clusters requested")
+    # the segmenter sees the WHOLE text: cluster boundaries depend on both neighbours (a Prepend character attaches to
+    # what follows, marks / ZWJ / variation selectors to what precedes), so no cut made before segmenting is safe
+    recv = fn.expr_of_operand(gc[0][1]["args"][0])
+    r0 = strip_casts(recv)
+    while r0[0] in ("ref", "deref"):
+        r0 = strip_casts(r0[1])
+    if r0[0] == "arg" and r0[1] == 1:
+        ctx.ok(site(fn, gc[0][0]), "the whole text is handed to the segmenter")
+    else:
+        ctx.violation(GRAPHEMES + "|whole-text|1", site(fn, gc[0][0]),
+                      "grapheme segmentation is applied to %s, a part of the text: a cluster that spans the cut (a Prepend character followed by ASCII, a base followed by a mark) is split, "
+                      "and every constructor then stores two characters where the documented result has one" % show(recv)[:80])
+    if len(gc) > 1 or any(str(t.get("fn")).endswith("Iterator::chain") for bi, t in fn.calls()):
+        ctx.violation(GRAPHEMES + "|whole-text|2", site(fn, 0), "the result of graphemes() is assembled from several pieces (chain / more than one segmentation)")
     # the mapping function handed to `.map(..)`: a closure literal or a named function
     from cfg import decision_paths
     mp = [(bi, t) for bi, t in fn.calls(lambda t: str(t.get("fn")).endswith("Iterator::map"))]
+    if len(mp) > 1:
+        # keep the one applied to the grapheme iterator
+        gid = (gc[0][0], gc[0][1]["dest"]["l"])
+        mp = [(bi, t) for bi, t in mp if any(x[0] == "call" and len(x) > 4 and x[4] == gid for x in walk(fn.expr_of_operand(t["args"][0])))] or mp
     if len(mp) != 1:
         raise Inconclusive("chars::graphemes: expected exactly one `.map(..)` over the grapheme iterator")
     mf = fn.expr_of_operand(mp[0][1]["args"][1])
